@@ -189,6 +189,27 @@ func init() {
 			}
 			return p.mkIntT(int64(n))
 		},
+		"verifFireTimerN": func(p *Path, th *Thread, fr *Frame, args []Value) Value {
+			// fires the k-th (creation order) live, waited-on timer with the given label
+			label := args[0].(string)
+			k := int(p.concreteInt(args[1], "timer index"))
+			for _, t := range p.sched.timers {
+				if t.label != label || t.stopped {
+					continue
+				}
+				if k == 0 {
+					for _, lt := range p.sched.liveTimers() {
+						if lt == t {
+							p.sched.fire(t)
+							return p.tt.Bool(true)
+						}
+					}
+					return p.tt.Bool(false)
+				}
+				k--
+			}
+			return p.tt.Bool(false)
+		},
 		"verifSleepCount": func(p *Path, th *Thread, fr *Frame, args []Value) Value {
 			n, _ := p.side["sleepCount"].(int)
 			return p.mkIntT(int64(n))
